@@ -98,6 +98,7 @@ def run_correct(case, ctx):
     d_out = _direction(case) * np.array([100, 100, 100, 1, 1, 1, 1, 1, 1.0])
     T_out = ctx.sut(em.transform_to_output, pva)
     T_int = ctx.sut(em.transform_to_internal, pva)
+    kept = (T_out.copy(), T_int.copy())
     n = 9 if wa else 7
     ctx.check(T_out.shape == (9, n) and T_int.shape == (n, 9), 'shape', f'{T_out.shape} {T_int.shape}')
     # (i) left inverse
@@ -127,6 +128,14 @@ def run_correct(case, ctx):
     if not wa:
         ctx.check(np.all(Ts[:, 2, :] == 0.0) and np.all(Ts[:, 5, :] == 0.0), 'vertical_rows_not_zero:stacked',
                   lambda: f'VD rows {Ts[:, 5, :]}')
+    # matrices handed out earlier belong to the caller: transforms computed afterwards for ANOTHER state must not change them
+    other_out = ctx.sut(em.transform_to_output, p2)
+    changed_out = not np.array_equal(T_out, kept[0])
+    other_int = ctx.sut(em.transform_to_internal, p2)
+    changed_int = not np.array_equal(T_int, kept[1])
+    ctx.check(not changed_out and not changed_int, 'earlier_result_changed',
+              lambda: f'the transform returned for one state changed after the transform of another state was computed '
+                      f'(to_output changed: {changed_out}, to_internal changed: {changed_int})')
     Fs = ctx.sut(em.system_matrices, frame)
     for k, row in enumerate((pva, p2, pva)):
         Fk = em.system_matrices(row)
